@@ -489,6 +489,48 @@ def rule_e2(repo, res):
                         where=f"pvl/parser.py:{fn.lineno}"))
 
 
+def rule_e6(repo, res):
+    """E6: the permissive parser turns *every* "ran out of tokens after '='" into the empty-value placeholder: in the
+    ParseError handler of OmniParser.parse_assignment_statement, the error is re-raised only when it carries no
+    token (path conditions: each raise of the handler lies under `err.token is None`), and the other paths return the
+    name with self._empty_value(...)."""
+    from . import flow
+    for cname in sorted(repo.subclasses("OmniParser")):
+        defcls, fn = repo.full_resolved(cname, "parse_assignment_statement")
+        if fn is None or defcls not in set(repo.subclasses("OmniParser")):
+            continue
+        handlers = [h for n in ast.walk(fn) if isinstance(n, ast.Try) for h in n.handlers
+                    if h.type is not None and "ParseError" in norm(h.type)]
+        res.floor(f"{defcls}.parse_assignment_statement ParseError handlers", len(handlers), 1)
+        for h in handlers:
+            var = h.name
+
+            def no_token(test, pol):
+                if isinstance(test, ast.Compare) and len(test.ops) == 1 and norm(test.left) == f"{var}.token" and norm(test.comparators[0]) == "None":
+                    return (isinstance(test.ops[0], ast.Is) and pol) or (isinstance(test.ops[0], ast.IsNot) and not pol)
+                return False
+            raises = [(st, c) for st, c in flow.stmts_with_conds(h.body) if isinstance(st, ast.Raise)]
+            rets = [(st, c) for st, c in flow.stmts_with_conds(h.body) if isinstance(st, ast.Return)]
+            bad = [st for st, c in raises if not flow.holds(c, no_token)]
+            placeholders = {t_.id for a_ in ast.walk(h) if isinstance(a_, ast.Assign) and isinstance(a_.value, ast.Call)
+                            and norm(a_.value.func).split(".")[-1] in ("_empty_value", "EmptyValueAtLine")
+                            for t_ in a_.targets if isinstance(t_, ast.Name)}
+
+            def is_placeholder(st):
+                txt = norm(st, 400)
+                return "_empty_value(" in txt or "EmptyValueAtLine(" in txt or any(
+                    isinstance(x, ast.Name) and x.id in placeholders for x in ast.walk(st))
+            ok = not bad and bool(rets) and all(is_placeholder(st) for st, _ in rets)
+            res.oblige("E6", f"{defcls}.parse_assignment_statement: a ParseError that carries the name token always becomes the "
+                             "empty-value placeholder", ok=ok)
+            if not ok:
+                what = f"`{norm(bad[0], 60)}` re-raises although the error carries the token" if bad else "a return of the handler is not the placeholder"
+                res.add(Finding("E6", f"{defcls}.parse_assignment_statement", "handler re-raises a tolerated missing value",
+                                f"in the ParseError handler of {defcls}.parse_assignment_statement {what}: a missing value at the "
+                                "end of the text is refused in some situations instead of being recorded as an empty value",
+                                where=f"pvl/parser.py:{(bad[0] if bad else h).lineno}"))
+
+
 def regex_may_match_newline(pattern):
     import re._parser as sp
     import re._constants as sc
